@@ -704,6 +704,11 @@ where
     C: Collect + ?Sized,
 {
     #[inline]
+    fn on_register_dispatch(&self, collector: &Dispatch) {
+        self.as_ref().on_register_dispatch(collector)
+    }
+
+    #[inline]
     fn register_callsite(&self, metadata: &'static Metadata<'static>) -> Interest {
         self.as_ref().register_callsite(metadata)
     }
@@ -782,6 +787,11 @@ impl<C> Collect for Arc<C>
 where
     C: Collect + ?Sized,
 {
+    #[inline]
+    fn on_register_dispatch(&self, collector: &Dispatch) {
+        self.as_ref().on_register_dispatch(collector)
+    }
+
     #[inline]
     fn register_callsite(&self, metadata: &'static Metadata<'static>) -> Interest {
         self.as_ref().register_callsite(metadata)
